@@ -117,9 +117,11 @@ func registerChecks() {
 				c := &Case{ID: fmt.Sprintf("C07-hintmap-%d-%d", cx.Seed, i)}
 				c.Ops = append(c.Ops, Op{Kind: OpFile, F: 0, Str: []string{"new", "", "p"}})
 				base := pick(r, []string{"a.com/d", "b.org/x/lib", "gopkg.in/yaml.v2", "net/http", "lib", "h0.com/d/v2"})
-				spell := []string{base, base + "/", base + "//", strings.ToUpper(base[:1]) + base[1:], base + "/.", "./" + base, strings.ToUpper(base)}
+				spell := []string{base, base + "/", base + "//", strings.ToUpper(base[:1]) + base[1:], base + "/.", "./" + base, strings.ToUpper(base),
+					// (the vendored copies of the path, as `go list` prints them)
+					"vendor/" + base, "x.io/app/vendor/" + base, "x.io/app/vendor/y.io/lib/vendor/" + base, "golang.org/x/" + base, base + "/internal", "internal/" + base}
 				r.Shuffle(len(spell), func(a, b int) { spell[a], spell[b] = spell[b], spell[a] })
-				spell = spell[:2+r.Intn(3)]
+				spell = spell[:2+r.Intn(4)]
 				var kv [][2]string
 				for k, sp := range spell {
 					kv = append(kv, [2]string{sp, fmt.Sprintf("n%d%s", k, genIdent(r))})
